@@ -47,7 +47,7 @@ def run_diff_cases(res, props, report_prop, known_kinds, quick=(32, 60), thoroug
                 continue
             fid = None
             for prefix, f in known_kinds.items():
-                if kind.startswith(prefix):
+                if common.kind_matches(kind, prefix):
                     fid = f
             if fid:
                 res.known_hit(fid)
